@@ -189,8 +189,9 @@ PROPS["C18"] = dict(
 PROPS["C11"] = dict(
     title="Writes through a follower are read-your-writes; waiting never wedges the node",
     design_ref="DESIGN.md section 7 (C11)",
-    run_files=["Run/C11Run.v", "Run/C05Run.v"],
-    engines=[dict(cmd=["c11"], corr="Model.Queue.step + Model.Heap <-> storage.IndexNotificationQueue.Run, util/heap", timeout=900),
+    run_files=["Run/C11Run.v", "Run/C05Run.v", "Run/FwdRun.v"],
+    engines=[dict(cmd=["fwd"], corr="Model.Forward.fstep (forwarding + replication progress + apply-path reports + Model.Queue.step) <-> regattaserver.ForwardingKVServer.{Put,DeleteRange,Txn} over storage.IndexNotificationQueue with a counting leader", timeout=600),
+             dict(cmd=["c11"], corr="Model.Queue.step + Model.Heap <-> storage.IndexNotificationQueue.Run, util/heap", timeout=900),
              dict(cmd=["c05", "--variant", "large backlog"], summary="c05", corr="what the apply path reports to the queue: a follower proposal is tagged with the leader index of its last command (Model.Replication.follows) <-> replication.worker.proposeBatch", timeout=900)],
     level_text="Heap ORDER invariant proved (New establishes it, Push and Pop keep it, the root is a minimum), carried over the whole table map for every completed event sequence, hence promptness: after a handled notification of leader index r nobody in that table's queue waits for a revision <= r. Theorems over all event sequences (adds with any revisions and tables, cancellations, notifications, sweeps, caller reads, length queries), per handler AND composed over the whole table map (GInv: C11_loop_never_wedges - from the initial state every event sequence with fresh waiter ids is handled to the end): no handler ever blocks or panics, every waiter receives at most one answer, an OK answer is preceded by a notification at or beyond the waiter's revision, an error answer by its cancellation, and a sweep leaves no cancelled waiter behind. The real queue (real 1 s ticker) and util/heap are compared with the model on event scripts and operation sequences; a real follower engine (applied-index reports feeding the queue) is taken through an operator reset with a waiter across it. First clause, composed (Model/Forward.v: forwarding server + replication of the leader's log + apply-path reports + the real queue): after ANY history, a call answered without error finds the node's copy equal to the result of applying a leader-log prefix of length >= its revision whose entry at the revision is the call's own command (C11_read_your_writes), with the invariant preserved by every single step (C11_forward_invariant_step).",
     level_note="Trusts: Coq kernel; Go channel/select semantics abstracted to one event at a time (a send on a full capacity-1 channel blocks the loop); that the notified index implies the write is applied rests on C05.",
